@@ -27,7 +27,7 @@ use std::time::{Duration, SystemTime, UNIX_EPOCH};
 use tensor_chain::deadlock::{DeadlockDetector, DeadlockDetectorConfig, VictimSelectionPolicy, WaitForGraph};
 use tensor_chain::consensus::{ConsensusConfig, ConsensusManager};
 use tensor_chain::distributed_tx::verif_clock;
-use tensor_chain::distributed_tx::{CoordinatorState, DistributedTxConfig, DistributedTxCoordinator, KeyLock, LockManager, PrepareRequest, PrepareVote, SerializableLockState};
+use tensor_chain::distributed_tx::{CoordinatorState, DistributedTxConfig, DistributedTxCoordinator, KeyLock, LockManager, PrepareRequest, PrepareVote, SerializableLockState, TxPhase, VoteRecordError};
 use tensor_chain::Transaction;
 use tensor_store::{ScalarValue, SparseVector, TensorData, TensorStore, TensorValue};
 
@@ -1662,6 +1662,471 @@ fn coordinator_threads(rep: &mut Report, r: &mut Rng, threads: usize, lives: usi
     rep.case(stream, if commits >= 1 && aborts >= 1 && (!scheduled || switches >= 2) { Some(&key) } else { None });
 }
 
+// ------------------------------------------------------------------ the real coordinator vs the model (`c*` ops)
+
+/// frozen-clock origin of the coordinator streams (model time 0)
+const CO_BASE: u64 = 10_000;
+const SYM_ENDED: u64 = 1_000;
+const SYM_PENDING: u64 = 2_000;
+
+#[derive(Clone, Debug)]
+enum CoOp {
+    Begin(Vec<u64>),
+    Prep(u64, Vec<u64>),
+    Deliver(u64, u64),
+    VoteNo(u64, u64),
+    Commit(u64),
+    Abort(u64),
+    CompleteCommit(u64),
+    CompleteAbort(u64),
+    Force(u64, bool),
+    Timeouts,
+    Recover,
+    Sweep(u64),
+    Adv(u64),
+    /// doom these transactions (their deadline passes), then save the coordinator state and load it back
+    SaveLoad(Vec<u64>),
+}
+fn co_text(op: &CoOp) -> String {
+    match op {
+        CoOp::Begin(sh) => format!("cbegin {}", if sh.is_empty() { "-".to_string() } else { dotted(sh) }),
+        CoOp::Prep(tx, ks) => format!("cprep {tx} {}", commas(ks)),
+        CoOp::Deliver(h, sh) => format!("cdeliver {h} {sh}"),
+        CoOp::VoteNo(tx, sh) => format!("cvoteno {tx} {sh}"),
+        CoOp::Commit(tx) => format!("ccommit {tx}"),
+        CoOp::Abort(tx) => format!("cabort {tx}"),
+        CoOp::CompleteCommit(tx) => format!("ccompletecommit {tx}"),
+        CoOp::CompleteAbort(tx) => format!("ccompleteabort {tx}"),
+        CoOp::Force(tx, b) => format!("cforce {tx} {}", u8::from(*b)),
+        CoOp::Timeouts => "ctimeouts".into(),
+        CoOp::Recover => "crecover".into(),
+        CoOp::Sweep(ps) => format!("csweep {ps}"),
+        CoOp::Adv(d) => format!("cadv {d}"),
+        CoOp::SaveLoad(d) => format!("csaveload doom={}", commas(d)),
+    }
+}
+
+fn co_config(mc: usize) -> DistributedTxConfig {
+    // orthogonal_threshold above 1: the cosine-similarity conflict checks never fire, only key locks decide;
+    // the transaction deadline (wall clock, not hooked) is an hour away unless the harness dooms the transaction
+    DistributedTxConfig { orthogonal_threshold: 2.0, prepare_timeout_ms: 3_600_000, max_concurrent: mc, ..DistributedTxConfig::default() }
+}
+fn co_load(state: &CoordinatorState, mc: usize) -> Option<DistributedTxCoordinator> {
+    let store = TensorStore::new();
+    let mut data = TensorData::new();
+    data.set("state", TensorValue::Scalar(ScalarValue::Bytes(bitcode::serialize(state).ok()?)));
+    store.put("_dtx:coordinator:n1:state".to_string(), data).ok()?;
+    DistributedTxCoordinator::load_from_store("n1", &store, ConsensusManager::new(ConsensusConfig::default()), co_config(mc)).ok()
+}
+
+struct RealCoord {
+    c: DistributedTxCoordinator,
+    mc: usize,
+    now: u64,
+    ids: Vec<u64>,                        // dense id (1-based) -> real id
+    handles: Vec<u64>,                    // model handle -> real handle
+    votes: BTreeMap<u64, (u64, PrepareVote)>, // in-flight Yes votes: model handle -> (dense tx, vote)
+    unrecorded: BTreeSet<u64>,
+}
+#[derive(Clone, Debug, PartialEq)]
+struct CoLock { k: u64, tx: u64, h: u64, acq: u64, to: u64, key: u64 }
+impl RealCoord {
+    fn new(to_ms: u64, mc: usize) -> Option<Self> {
+        verif_clock::set_now_ms(Some(CO_BASE));
+        let state = CoordinatorState { pending: HashMap::new(), lock_state: SerializableLockState::new(HashMap::new(), HashMap::new(), to_ms) };
+        Some(RealCoord { c: co_load(&state, mc)?, mc, now: 0, ids: vec![], handles: vec![], votes: BTreeMap::new(), unrecorded: BTreeSet::new() })
+    }
+    fn real_tx(&self, dense: u64) -> u64 {
+        if dense >= 1 && (dense as usize) <= self.ids.len() { self.ids[dense as usize - 1] } else { dense }
+    }
+    fn dense_tx(&self, real: u64) -> u64 {
+        self.ids.iter().position(|x| *x == real).map_or(real, |i| i as u64 + 1)
+    }
+    fn h_model(&mut self, real: u64) -> u64 {
+        if let Some(i) = self.handles.iter().position(|x| *x == real) { return i as u64; }
+        self.handles.push(real);
+        self.handles.len() as u64 - 1
+    }
+    fn locks(&mut self) -> Vec<CoLock> {
+        let st = self.c.lock_manager().to_serializable();
+        let mut v: Vec<CoLock> = Vec::new();
+        for (k, l) in st.locks().iter() {
+            let tx = self.dense_tx(l.tx_id);
+            let h = self.h_model(l.lock_handle);
+            v.push(CoLock { k: kid(k), key: kid(&l.key), tx, h, acq: l.acquired_at_ms.saturating_sub(CO_BASE), to: l.timeout_ms });
+        }
+        v.sort_by_key(|l| l.k);
+        v
+    }
+    fn pending_dense(&self) -> Vec<u64> {
+        let mut p: Vec<u64> = self.c.to_state().pending.keys().map(|t| self.dense_tx(*t)).collect();
+        p.sort();
+        p
+    }
+    fn image(&mut self) -> Option<String> {
+        let st = self.c.to_state();
+        let locks = self.locks();
+        let l: Vec<String> = locks.iter().map(|r| format!("{}:{}:{}:{}:{}:{}", r.k, r.key, r.tx, r.h, r.acq, r.to)).collect();
+        let mut txl: Vec<(u64, Vec<u64>)> = st.lock_state.tx_locks().iter().map(|(t, ks)| (self.dense_tx(*t), ks.iter().map(|k| kid(k)).collect())).collect();
+        txl.sort();
+        let t: Vec<String> = txl.iter().map(|(tx, ks)| format!("{}:{}", tx, dotted(ks))).collect();
+        let table = format!("L {};T {};D {};N {}", l.join(","), t.join(","), st.lock_state.default_timeout_ms(), locks.len());
+        let v = view(self.c.wait_graph())?;
+        let ren = |m: &[(u64, Vec<u64>)]| -> Vec<(u64, Vec<u64>)> { m.iter().map(|(k, vs)| (self.dense_tx(*k), vs.iter().map(|x| self.dense_tx(*x)).collect())).collect() };
+        let gv = GraphView { edges: ren(&v.edges), reverse: ren(&v.reverse), ws: v.ws.iter().map(|(k, t)| (self.dense_tx(*k), *t)).collect(), pr: v.pr.iter().map(|(k, t)| (self.dense_tx(*k), *t)).collect() };
+        let mut pend: Vec<(u64, String)> = Vec::new();
+        for (id, tx) in st.pending.iter() {
+            let phase = match tx.phase { TxPhase::Preparing => "preparing", TxPhase::Prepared => "prepared", TxPhase::Committing => "committing", TxPhase::Aborting => "aborting", TxPhase::Committed => "committed", TxPhase::Aborted => "aborted", _ => "other" };
+            let mut votes: Vec<(u64, String)> = Vec::new();
+            for (sh, v) in tx.votes.iter() {
+                votes.push((*sh as u64, match v { PrepareVote::Yes { lock_handle, .. } => format!("{sh}y{}", self.handles.iter().position(|x| x == lock_handle).map_or(999_999, |i| i as u64)), _ => format!("{sh}n") }));
+            }
+            votes.sort();
+            let shards: Vec<u64> = tx.participants.iter().map(|s| *s as u64).collect();
+            let d = self.dense_tx(*id);
+            pend.push((d, format!("{d}:{phase}:{}:{}:{}", dotted(&shards), votes.iter().map(|x| x.1.clone()).collect::<Vec<_>>().join("."), u8::from(tx.is_timed_out()))));
+        }
+        pend.sort();
+        let infl: Vec<String> = self.votes.iter().map(|(h, (tx, _))| format!("{h}={tx}")).collect();
+        let unrec: Vec<u64> = self.unrecorded.iter().copied().collect();
+        let gi = graph_img(&gv, CO_BASE);
+        let gi = if gi.ends_with(";P") { format!("{gi} ") } else { gi }; // graph_img trims its own end
+        Some(format!("{table} | {} | P {} | I {};U {}", gi, pend.iter().map(|x| x.1.clone()).collect::<Vec<_>>().join(","), infl.join(","), dotted(&unrec)))
+    }
+    /// symbolic references of the random generator, resolved against the current real state:
+    /// tx >= SYM_PENDING: the (tx - SYM_PENDING)-th pending transaction (mod count; none pending: an ended one);
+    /// tx >= SYM_ENDED: the (tx - SYM_ENDED)-th issued id that is no longer pending; handle >= SYM_PENDING: the
+    /// n-th vote in flight; shard >= SYM_PENDING: the first participant of that transaction that has not voted
+    fn resolve(&self, op: &CoOp) -> CoOp {
+        let st = self.c.to_state();
+        let mut pend: Vec<u64> = st.pending.keys().map(|t| self.dense_tx(*t)).collect();
+        pend.sort();
+        let ended: Vec<u64> = (1..=self.ids.len() as u64).filter(|d| !pend.contains(d)).collect();
+        let tx_of = |t: u64| -> u64 {
+            if t >= SYM_PENDING {
+                if !pend.is_empty() { pend[((t - SYM_PENDING) as usize) % pend.len()] } else if !ended.is_empty() { ended[((t - SYM_PENDING) as usize) % ended.len()] } else { 70 }
+            } else if t >= SYM_ENDED {
+                if !ended.is_empty() { ended[((t - SYM_ENDED) as usize) % ended.len()] } else { 71 }
+            } else { t }
+        };
+        let unvoted = |tx: u64, sh: u64| -> u64 {
+            if sh < SYM_PENDING { return sh; }
+            match st.pending.get(&self.real_tx(tx)) {
+                Some(t) => t.participants.iter().find(|s| !t.votes.contains_key(*s)).map_or((sh - SYM_PENDING) % 2, |s| *s as u64),
+                None => (sh - SYM_PENDING) % 2,
+            }
+        };
+        match op {
+            CoOp::Prep(t, ks) => CoOp::Prep(tx_of(*t), ks.clone()),
+            CoOp::Deliver(h, sh) => {
+                let hs: Vec<u64> = self.votes.keys().copied().collect();
+                let h2 = if *h >= SYM_PENDING { if hs.is_empty() { 999 } else { hs[((*h - SYM_PENDING) as usize) % hs.len()] } } else { *h };
+                let tx = self.votes.get(&h2).map_or(0, |v| v.0);
+                CoOp::Deliver(h2, unvoted(tx, *sh))
+            }
+            CoOp::VoteNo(t, sh) => { let tx = tx_of(*t); CoOp::VoteNo(tx, unvoted(tx, *sh)) }
+            CoOp::Commit(t) => CoOp::Commit(tx_of(*t)),
+            CoOp::Abort(t) => CoOp::Abort(tx_of(*t)),
+            CoOp::CompleteCommit(t) => CoOp::CompleteCommit(tx_of(*t)),
+            CoOp::CompleteAbort(t) => CoOp::CompleteAbort(tx_of(*t)),
+            CoOp::Force(t, b) => CoOp::Force(tx_of(*t), *b),
+            CoOp::SaveLoad(d) => CoOp::SaveLoad(d.iter().map(|t| tx_of(*t)).collect()),
+            other => other.clone(),
+        }
+    }
+    fn in_graph(&self, dense: u64) -> bool {
+        let tx = self.real_tx(dense);
+        match view(self.c.wait_graph()) {
+            Some(v) => v.edges.iter().any(|(k, vs)| *k == tx || vs.contains(&tx)) || v.reverse.iter().any(|(k, vs)| *k == tx || vs.contains(&tx)) || v.ws.iter().any(|x| x.0 == tx) || v.pr.iter().any(|x| x.0 == tx),
+            None => true,
+        }
+    }
+}
+
+fn co_err(e: &str) -> &'static str {
+    if e.contains("not found") { "notfound" } else if e.contains("cannot be committed") { "refused" } else if e.contains("phase") { "wrongphase" } else { "error" }
+}
+
+/// Runs one coordinator op script on the real `DistributedTxCoordinator` (frozen clock) and on the model,
+/// comparing answer + lock table + wait-for graph + pending map after every op, and judging the real
+/// outputs with the property's oracles.  Returns true when everything agreed.
+fn run_coord_case(m: &mut Model, rep: &mut Report, stream: &str, to: u64, mc: usize, ops: &[CoOp], record: bool) -> bool {
+    let Some(mut rc) = RealCoord::new(to, mc) else { rep.note("coordinator could not be constructed through load_from_store"); return true; };
+    struct Reset;
+    impl Drop for Reset { fn drop(&mut self) { verif_clock::set_now_ms(None); } }
+    let _reset = Reset;
+    if m.ask(&format!("cinit {to} {mc}")) != "ok" { rep.disagree(stream, json!({}), "ok", "cinit refused"); return false; }
+    let mut trace: Vec<String> = Vec::new();
+    let mut recorded_of: BTreeMap<u64, Vec<u64>> = BTreeMap::new(); // dense tx -> model handles recorded as Yes votes
+    let (mut grants, mut ends, mut leaks) = (0, 0, 0);
+    for (i, op) in ops.iter().enumerate() {
+        let resolved = rc.resolve(op);
+        let op = &resolved;
+        // an id the coordinator has not issued yet (the generator cannot know about refused begins, shrinking
+        // removes begins): the model would identify it with a later transaction, the real ids are random — skip
+        if let CoOp::Prep(tx, _) | CoOp::VoteNo(tx, _) | CoOp::Commit(tx) | CoOp::Abort(tx) | CoOp::CompleteCommit(tx) | CoOp::CompleteAbort(tx) | CoOp::Force(tx, _) = op {
+            if *tx < 70 && (*tx as usize) > rc.ids.len() { continue; }
+        }
+        let text = co_text(op);
+        trace.push(text.clone());
+        let tr = || json!({"timeout_ms": to, "max_concurrent": mc, "step": i, "trace": trace});
+        let before = rc.locks();
+        let pending_before = rc.pending_dense();
+        let mut ended: Vec<u64> = Vec::new();
+        let mut line = text.clone();
+        let imp: String = match op {
+            CoOp::Begin(sh) => {
+                let shards: Vec<usize> = sh.iter().map(|s| *s as usize).collect();
+                match rc.c.begin(&"n1".to_string(), &shards) {
+                    Ok(tx) => { rc.ids.push(tx.tx_id); if record { rep.hit("co.begin"); } format!("began {}", rc.ids.len()) }
+                    Err(_) => { if record { rep.hit("co.begin.refused"); } "refused".into() }
+                }
+            }
+            CoOp::Prep(tx, ks) => {
+                let real = rc.real_tx(*tx);
+                let v = rc.c.handle_prepare(&prep(real, ks, *tx as usize));
+                match &v {
+                    PrepareVote::Yes { lock_handle, .. } => {
+                        let h = rc.h_model(*lock_handle);
+                        rc.votes.insert(h, (*tx, v.clone()));
+                        grants += 1;
+                        if record { rep.hit(if pending_before.contains(tx) { "co.prepare.yes" } else { "co.prepare.yes.tx_not_pending" }); }
+                        let after = rc.locks();
+                        // oracles: all-or-nothing, exclusivity, nothing else disturbed
+                        for k in ks {
+                            if !after.iter().any(|l| l.k == *k && l.tx == *tx && l.h == h) {
+                                rep.violation("DistributedTxCoordinator.handle_prepare/partial_grant", "voted Yes but a requested key is not held by the transaction under the new handle", tr());
+                            }
+                            if let Some(b) = before.iter().find(|l| l.k == *k) {
+                                if b.tx != *tx && !(rc.now.saturating_sub(b.acq) > b.to) {
+                                    rep.violation("DistributedTxCoordinator.handle_prepare/two_unexpired_holders", "voted Yes on a key held by another unexpired transaction", tr());
+                                }
+                                if b.tx != *tx { if record { rep.hit("co.prepare.takeover_of_expired"); } }
+                            }
+                        }
+                        if before.iter().any(|b| !ks.contains(&b.k) && !after.contains(b)) {
+                            rep.violation("DistributedTxCoordinator.handle_prepare/foreign_lock_disturbed", "a grant changed a lock outside the requested set", tr());
+                        }
+                        if rc.in_graph(*tx) {
+                            rep.violation("DistributedTxCoordinator.handle_prepare/granted_tx_still_waits", "a transaction whose prepare was granted still appears in the wait-for graph", tr());
+                        }
+                        format!("yes {h}")
+                    }
+                    PrepareVote::Conflict { conflicting_tx, .. } => {
+                        if record { rep.hit("co.prepare.conflict"); }
+                        let after = rc.locks();
+                        if after != before {
+                            rep.violation("DistributedTxCoordinator.handle_prepare/conflict_state_changed", "a refused prepare changed the lock table", tr());
+                        }
+                        let blocker = rc.dense_tx(*conflicting_tx);
+                        let ck: Vec<u64> = ks.iter().copied().filter(|k| before.iter().any(|l| l.k == *k && l.tx != *tx && !(rc.now.saturating_sub(l.acq) > l.to))).collect();
+                        if !before.iter().any(|l| l.tx == blocker && ck.contains(&l.k)) {
+                            rep.violation("DistributedTxCoordinator.handle_prepare/spurious_conflict", "the named blocker holds no live lock on a requested key", tr());
+                        }
+                        format!("conflict {}", commas(&ck))
+                    }
+                    _ => "no".into(),
+                }
+            }
+            CoOp::Deliver(h, sh) => match rc.votes.remove(h) {
+                None => "unit".into(),
+                Some((tx, vote)) => match rc.c.record_vote(rc.real_tx(tx), *sh as usize, vote) {
+                    Ok(ph) => {
+                        recorded_of.entry(tx).or_default().push(*h);
+                        if record { rep.hit("co.vote.recorded"); }
+                        match ph { None => "recorded -".into(), Some(TxPhase::Prepared) => "recorded prepared".into(), Some(TxPhase::Aborting) => "recorded aborting".into(), Some(p) => format!("recorded {p:?}") }
+                    }
+                    Err(e) => {
+                        rc.unrecorded.insert(*h);
+                        let k = match e { VoteRecordError::TxNotFound(_) => "notfound", VoteRecordError::WrongPhase { .. } => "wrongphase", VoteRecordError::DuplicateVote { .. } => "duplicate" };
+                        if record { rep.hit(&format!("co.vote.refused.{k}")); }
+                        k.into()
+                    }
+                },
+            },
+            CoOp::VoteNo(tx, sh) => match rc.c.record_vote(rc.real_tx(*tx), *sh as usize, PrepareVote::No { reason: "harness".into() }) {
+                Ok(ph) => { if record { rep.hit("co.vote.no"); } match ph { None => "recorded -".into(), Some(TxPhase::Prepared) => "recorded prepared".into(), Some(TxPhase::Aborting) => "recorded aborting".into(), Some(p) => format!("recorded {p:?}") } }
+                Err(e) => match e { VoteRecordError::TxNotFound(_) => "notfound", VoteRecordError::WrongPhase { .. } => "wrongphase", VoteRecordError::DuplicateVote { .. } => "duplicate" }.into(),
+            },
+            CoOp::Commit(tx) | CoOp::Abort(tx) | CoOp::CompleteCommit(tx) | CoOp::CompleteAbort(tx) | CoOp::Force(tx, _) => {
+                let real = rc.real_tx(*tx);
+                let (site, res) = match op {
+                    CoOp::Commit(_) => ("commit", rc.c.commit(real)),
+                    CoOp::Abort(_) => ("abort", rc.c.abort(real, "harness")),
+                    CoOp::CompleteCommit(_) => ("complete_commit", rc.c.complete_commit(real)),
+                    CoOp::CompleteAbort(_) => ("complete_abort", rc.c.complete_abort(real)),
+                    CoOp::Force(_, b) => (if *b { "force_resolve_commit" } else { "force_resolve_abort" }, rc.c.force_resolve(real, *b)),
+                    _ => unreachable!(),
+                };
+                match res {
+                    Ok(()) => { ended.push(*tx); if record { rep.hit(&format!("co.end.{site}")); } "ok".into() }
+                    Err(e) => { let k = co_err(&e.to_string()); if record { rep.hit(&format!("co.end.{site}.{k}")); } k.into() }
+                }
+            }
+            CoOp::Timeouts => {
+                let gone: Vec<u64> = rc.c.cleanup_timeouts().iter().map(|t| rc.dense_tx(*t)).collect();
+                let mut g = gone.clone();
+                g.sort();
+                if record { rep.hit(if g.is_empty() { "co.timeouts.none" } else { "co.timeouts.some" }); }
+                ended.extend(g.iter().copied());
+                format!("ids {}", commas(&g))
+            }
+            CoOp::Recover => {
+                let s = rc.c.recover();
+                if record { rep.hit("co.recover"); if s.pending_commit > 0 { rep.hit("co.recover.to_committing"); } if s.timed_out > 0 { rep.hit("co.recover.timed_out"); } }
+                format!("stats {} {} {} {}", s.timed_out, s.pending_prepare, s.pending_commit, s.pending_abort)
+            }
+            CoOp::Sweep(ps) => {
+                let n = rc.c.release_orphaned_locks(CO_BASE + ps);
+                let after = rc.locks();
+                if record { rep.hit(if n > 0 { "co.sweep.removed" } else { "co.sweep.none" }); }
+                // oracle: exactly the locks of non-pending transactions acquired before the partition start go
+                let mut swept_txs: BTreeSet<u64> = BTreeSet::new();
+                for b in &before {
+                    let orphan = !pending_before.contains(&b.tx) && b.acq < *ps;
+                    let still = after.contains(b);
+                    if orphan { swept_txs.insert(b.tx); }
+                    if orphan && still {
+                        rep.violation("DistributedTxCoordinator.release_orphaned_locks/orphan_remains", "a lock of a transaction that is not pending, acquired before the partition start, survived the sweep", tr());
+                    }
+                    if !orphan && !still {
+                        rep.violation("DistributedTxCoordinator.release_orphaned_locks/live_lock_removed", "the sweep removed a lock of a pending transaction or one acquired at/after the partition start", tr());
+                        if record && pending_before.contains(&b.tx) { rep.hit("co.sweep.pending_lock_removed"); }
+                    }
+                    if !orphan && pending_before.contains(&b.tx) && b.acq < *ps && record { rep.hit("co.sweep.kept_lock_of_pending_tx"); }
+                    if !orphan && !pending_before.contains(&b.tx) && b.acq == *ps && record { rep.hit("co.sweep.boundary_acquired_eq_start_kept"); }
+                }
+                if after.iter().any(|a| !before.contains(a)) || n != before.len() - after.len() {
+                    rep.violation("DistributedTxCoordinator.release_orphaned_locks/wrong_count", "the sweep's count differs from the number of removed locks", tr());
+                }
+                for t in &swept_txs {
+                    if rc.in_graph(*t) {
+                        rep.violation("DistributedTxCoordinator.release_orphaned_locks/swept_tx_in_wait_graph", "a transaction whose locks were swept still appears in the wait-for graph", tr());
+                    }
+                }
+                format!("count {n}")
+            }
+            CoOp::Adv(d) => {
+                rc.now += d;
+                verif_clock::set_now_ms(Some(CO_BASE + rc.now));
+                "unit".into()
+            }
+            CoOp::SaveLoad(doom) => {
+                let mut st = rc.c.to_state();
+                for d in doom {
+                    let _ = m.ask(&format!("cdoom {d}"));
+                    if let Some(tx) = st.pending.get_mut(&rc.real_tx(*d)) { tx.started_at = 1; if record { rep.hit("co.doom"); } }
+                }
+                match co_load(&st, rc.mc) {
+                    Some(c2) => rc.c = c2,
+                    None => { rep.disagree(stream, tr(), "coordinator state does not survive save/load", ""); return false; }
+                }
+                if record { rep.hit("co.saveload"); }
+                line = "csaveload".into();
+                "unit".into()
+            }
+        };
+        let Some(img) = rc.image() else { rep.disagree(stream, tr(), "unparseable Debug output of WaitForGraph", ""); return false; };
+        let mo = m.ask(&line);
+        if !rep.compare(stream, tr, format!("{imp} | {img}").trim_end(), mo.trim_end()) { return false; }
+        // oracle (the property, sentence 2): a transaction that just ended holds no lock and is absent from the
+        // wait-for graph.  A lock whose Yes vote the coordinator never recorded (vote still in flight, or refused
+        // by record_vote) is outside the coordinator's knowledge: counted, reported as an observation.
+        for tx in &ended {
+            ends += 1;
+            if rc.in_graph(*tx) {
+                rep.violation("DistributedTxCoordinator/ended_tx_in_wait_graph", "a transaction that just ended still appears in the coordinator's wait-for graph", tr());
+            }
+            let rec = recorded_of.get(tx).cloned().unwrap_or_default();
+            for l in rc.locks().iter().filter(|l| l.tx == *tx) {
+                if rec.contains(&l.h) {
+                    rep.violation("DistributedTxCoordinator/locks_remain_after_end", "an ended transaction still holds a lock whose handle the coordinator had recorded", tr());
+                } else if rc.votes.contains_key(&l.h) || rc.unrecorded.contains(&l.h) {
+                    leaks += 1;
+                    if record { rep.hit(if rc.votes.contains_key(&l.h) { "co.end.lock_left.vote_in_flight" } else { "co.end.lock_left.vote_refused" }); }
+                } else {
+                    rep.violation("DistributedTxCoordinator/locks_remain_after_end", "an ended transaction still holds a lock that is neither in flight nor refused", tr());
+                }
+            }
+        }
+        // quiescence: nothing pending, nothing in flight, nothing refused => the lock table is empty
+        if rc.pending_dense().is_empty() && rc.votes.is_empty() && rc.unrecorded.is_empty() && !rc.locks().is_empty() {
+            rep.violation("DistributedTxCoordinator/locks_remain_at_quiescence", "no transaction is pending and every vote was recorded, but locks remain", tr());
+        }
+    }
+    if record {
+        let key = trace.join(";");
+        rep.case(stream, if grants >= 1 && ends >= 1 { Some(&key) } else { None });
+        if leaks > 0 { rep.hit("co.case.with_unrecorded_lock_left_behind"); }
+    }
+    true
+}
+
+fn directed_coord_cases() -> Vec<(&'static str, u64, usize, Vec<CoOp>)> {
+    use CoOp::*;
+    vec![
+        // two shards, overlapping key sets re-locked by the same transaction under a second handle
+        ("two_shards_overlapping_keys", 5, 10, vec![Begin(vec![0, 1]), Prep(1, vec![1, 2]), Deliver(0, 0), Prep(1, vec![2, 3]), Deliver(1, 1), Commit(1), Sweep(100)]),
+        // refused prepare registers the waiter; abort without any handle must still clear the graph
+        ("waiter_without_handle", 5, 10, vec![Begin(vec![0]), Begin(vec![0]), Prep(1, vec![1]), Deliver(0, 0), Prep(2, vec![1]), VoteNo(2, 0), Abort(2), Commit(1)]),
+        // the Yes vote is still in flight when the transaction is aborted: the lock stays until expiry / sweep
+        ("vote_in_flight_at_abort", 3, 10, vec![Begin(vec![0]), Prep(1, vec![4]), Abort(1), Deliver(0, 0), Begin(vec![0]), Prep(2, vec![4]), Adv(4), Timeouts, Prep(2, vec![4]), Deliver(1, 0), Commit(2)]),
+        ("vote_in_flight_then_sweep", 30, 10, vec![Begin(vec![0]), Prep(1, vec![4, 5]), Abort(1), Deliver(0, 0), Adv(2), Begin(vec![0]), Prep(2, vec![5]), Sweep(0), Sweep(1), Prep(2, vec![5]), Deliver(1, 0), Commit(2)]),
+        // a retried prepare: the second handle overwrites the first, its vote is a duplicate, commit releases
+        // only the recorded (first) handle
+        ("retried_prepare_duplicate_vote", 5, 10, vec![Begin(vec![0]), Prep(1, vec![7]), Deliver(0, 0), Prep(1, vec![7]), Deliver(1, 0), Commit(1), Adv(6), Timeouts]),
+        // recover moves an all-yes Prepared transaction to Committing; complete_commit ends it
+        ("recover_then_complete", 5, 10, vec![Begin(vec![0]), Begin(vec![0]), Prep(1, vec![1]), Deliver(0, 0), Prep(2, vec![1]), VoteNo(2, 0), Recover, CompleteCommit(2), CompleteAbort(1), CompleteCommit(1), CompleteAbort(2)]),
+        // force_resolve: commit with no votes (all_yes is vacuously true), commit refused after a No, abort
+        ("force_resolve", 5, 10, vec![Begin(vec![0, 1]), Force(1, true), Begin(vec![0, 1]), Prep(2, vec![2]), Deliver(0, 0), VoteNo(2, 1), Force(2, true), Force(2, false), Force(2, false)]),
+        // deadlines: doomed transactions are ended by cleanup_timeouts / moved to Aborting by recover
+        ("deadline_timeouts", 5, 10, vec![Begin(vec![0]), Begin(vec![0]), Begin(vec![0]), Prep(1, vec![1]), Deliver(0, 0), Prep(2, vec![1]), Prep(3, vec![2]), Deliver(1, 0), SaveLoad(vec![1]), Prep(2, vec![1]), Timeouts, Prep(2, vec![1]), Deliver(2, 0), SaveLoad(vec![3]), Recover, CompleteAbort(3), Commit(2)]),
+        // sweep boundary: acquired_at == partition start is kept, one millisecond later it goes; a pending
+        // transaction's lock is never swept; the swept holder's waiters lose their edges
+        ("sweep_boundary", 50, 10, vec![Begin(vec![0]), Begin(vec![0]), Adv(3), Prep(1, vec![1]), Prep(2, vec![2]), Deliver(1, 0), Abort(1), Begin(vec![0]), Prep(3, vec![1, 2]), Sweep(3), Sweep(4), Prep(3, vec![1]), Deliver(0, 0)]),
+        // max_concurrent refusal
+        ("max_concurrent", 5, 2, vec![Begin(vec![0]), Begin(vec![0]), Begin(vec![0]), Abort(1), Begin(vec![0])]),
+        // a prepare of a transaction the coordinator never began, and one after its own end
+        ("prepare_without_pending", 4, 10, vec![Prep(77, vec![1]), Deliver(0, 0), Begin(vec![0]), Prep(1, vec![1]), Abort(1), Prep(1, vec![2]), Deliver(1, 0), Adv(5), Timeouts]),
+        // expiry take-over, then the old holder ends: its stale handle finds nothing, graph still cleaned
+        ("takeover_then_old_holder_ends", 3, 10, vec![Begin(vec![0]), Begin(vec![0]), Begin(vec![0]), Prep(1, vec![7]), Deliver(0, 0), Prep(3, vec![7]), Adv(3), Prep(2, vec![7]), Adv(1), Prep(2, vec![7]), Deliver(1, 0), Commit(1), Commit(2), Abort(3)]),
+    ]
+}
+
+fn gen_coord_ops(r: &mut Rng, n: usize) -> (u64, usize, Vec<CoOp>) {
+    let to = *r.pick(&[1u64, 2, 3, 5, 30]);
+    let mc = if r.chance(1, 6) { 2 } else { 10 };
+    let nkeys = 2 + r.below(3);
+    let mut now = 0u64;
+    let mut ops = Vec::new();
+    for _ in 0..1 + r.below(4) {
+        ops.push(CoOp::Begin(match r.below(8) { 0 => vec![], 1..=4 => vec![0], _ => vec![0, 1] }));
+    }
+    for _ in 0..n {
+        // mostly a pending transaction, sometimes one that has ended, rarely an id the coordinator never issued
+        let tx = match r.below(20) { 0 => 70 + r.below(2), 1..=3 => SYM_ENDED + r.below(8), _ => SYM_PENDING + r.below(8) };
+        let sh = if r.chance(4, 5) { SYM_PENDING + r.below(2) } else { r.below(3) };
+        let op = match r.below(100) {
+            0..=9 => CoOp::Begin(match r.below(8) { 0 => vec![], 1..=4 => vec![0], _ => vec![0, 1] }),
+            10..=35 => CoOp::Prep(tx, gen_keys(r, nkeys)),
+            36..=63 => CoOp::Deliver(if r.chance(9, 10) { SYM_PENDING + r.below(8) } else { r.below(6) }, sh),
+            64..=66 => CoOp::VoteNo(tx, sh),
+            67..=74 => CoOp::Commit(tx),
+            75..=77 => CoOp::Abort(tx),
+            78..=79 => CoOp::CompleteCommit(tx),
+            80..=81 => CoOp::CompleteAbort(tx),
+            82..=83 => CoOp::Force(tx, r.chance(1, 2)),
+            84..=85 => CoOp::Timeouts,
+            86..=88 => CoOp::Recover,
+            89..=92 => CoOp::Sweep((now + 2).saturating_sub(r.below(5))),
+            93..=97 => { let d = r.below(4); now += d; CoOp::Adv(d) }
+            _ => CoOp::SaveLoad(if r.chance(2, 3) { vec![SYM_PENDING + r.below(8)] } else { vec![] }),
+        };
+        ops.push(op);
+    }
+    (to, mc, ops)
+}
+
 // ------------------------------------------------------------------ untouched-API real-time stream
 
 fn realtime_case(m: &mut Model, rep: &mut Report, r: &mut Rng) {
@@ -1710,6 +2175,35 @@ fn realtime_case(m: &mut Model, rep: &mut Report, r: &mut Rng) {
     rep.case(stream, Some(&key));
 }
 
+/// stream 10: coordinator op scripts (begin / handle_prepare / record_vote / every end-of-transaction site /
+/// cleanup_timeouts / recover / release_orphaned_locks / save-load) on the real coordinator vs the model
+fn coord_ops_stream(m: &mut Model, rep: &mut Report, root: &Rng, scale: u64) {
+    // ---- stream 10: coordinator op scripts (begin / handle_prepare / record_vote / every end-of-transaction site /
+    //      cleanup_timeouts / recover / release_orphaned_locks / save-load) on the real coordinator vs the model
+    for (name, to, mc, ops) in directed_coord_cases() {
+        if !run_coord_case(m, rep, "coord.ops.directed", to, mc, &ops, true) {
+            rep.note(&format!("directed coordinator case {name} disagreed"));
+        }
+        rep.hit(&format!("co.directed.{name}"));
+    }
+    let mut r = root.fork("coord.ops");
+    let mut failed_co = 0;
+    for _ in 0..700 * scale {
+        let n = 6 + r.below(26) as usize;
+        let (to, mc, ops) = gen_coord_ops(&mut r, n);
+        if !run_coord_case(m, rep, "coord.ops", to, mc, &ops, true) {
+            failed_co += 1;
+            if failed_co == 1 {
+                let mut scratch = Report::new("shrink");
+                let small = shrink_list(&ops, &mut |cand: &[CoOp]| !run_coord_case(m, &mut scratch, "shrink", to, mc, cand, false));
+                rep.sample(json!({"stream": "coord.ops", "shrunk_disagreement": small.iter().map(co_text).collect::<Vec<_>>(), "timeout_ms": to, "max_concurrent": mc}));
+            }
+            if failed_co >= 10 { break; }
+        }
+    }
+    verif_clock::set_now_ms(None);
+}
+
 fn main() {
     let args = parse_args();
     let mut rep = Report::new(
@@ -1740,6 +2234,11 @@ fn main() {
     let root = Rng::new(args.seed);
     let scale: u64 = if args.thorough { 10 } else { 1 };
 
+    if args.extra.iter().any(|x| x == "--only-coord-ops") {
+        coord_ops_stream(&mut m, &mut rep, &root, scale);
+        rep.write(&args.out);
+        return;
+    }
     let t_start = std::time::Instant::now();
     let lap = |name: &str| eprintln!("[corr_locks] {name} done at {:.1}s", t_start.elapsed().as_secs_f64());
     // ---- stream 1: lock-table op sequences (virtual clock), with shrinking of a disagreement
@@ -1883,6 +2382,8 @@ fn main() {
         coordinator_threads(&mut rep, &mut r, t, if args.thorough { 60 } else { 25 }, false);
     }
     lap("threads.coordinator");
+    coord_ops_stream(&mut m, &mut rep, &root, scale);
+    lap("coord.ops");
     rep.note("lock-table time: (a) table.ops — a virtual tick clock realised through the public serialize/restore path (acquired_at_ms shifted) on the wall clock; (b) table.clock*, sched.*, coord B — the frozen millisecond clock of the hook tensor_chain::distributed_tx::verif_clock (/repo 654184dd): KeyLock::is_expired is `elapsed > timeout` (not expired at elapsed == timeout), mirrored by the model and compared at timeout-1 / timeout / timeout+1 through every expiry-dependent operation");
     rep.note("DistributedTransaction::is_timed_out (coordinator-level transaction timeout) reads SystemTime directly and is not covered by the clock hook; scenario C sleeps 45 ms against a 20 ms prepare timeout");
     rep.note("iteration order of the private HashMap/HashSet of WaitForGraph is read from its Debug output and passed to the model as an explicit input");
